@@ -3,6 +3,7 @@
 //!        pngv <prop> --replay-case "<case line>"
 mod c14;
 mod c15;
+mod pngbuild;
 mod refimpl;
 mod util;
 
